@@ -166,13 +166,22 @@ theorem wCond_reads : ReadsWithin wCond wRel.owned := by
   have := h 0 (by simp [wRel])
   simp [wCond, this]
 
-theorem punsound_pushdown_filter_limit : ¬ pstmt_pushdown_filter_limit := by
+/-- `(filter c (limit n off r)) => (limit n off (filter c r))` was an optimizer rule until `fix:`
+881d3d2 removed it (and its top-N twin): it is not an equivalence.  Kept as a regression
+statement: if the rule comes back, the translator emits `pstmt_pushdown_filter_limit` again and
+this is its refutation. -/
+theorem pushdown_filter_limit_not_equivalence :
+    ¬ ∀ (c : BExpr) (n : Option Nat) (off : Nat) (r : Rel), ReadsWithin c r.owned →
+      RelEq (filter c (limit n off r)) (limit n off (filter c r)) := by
   intro h
   have := h wCond (some 1) 0 wRel wCond_reads
   revert this
   simp [RelEq, Rel.out, filter, limit, wRel, wRows, wCond, holds]
 
-theorem punsound_pushdown_filter_topn : ¬ pstmt_pushdown_filter_topn := by
+theorem pushdown_filter_topn_not_equivalence :
+    ¬ ∀ (c : BExpr) (n : Option Nat) (off : Nat) (ks : List Key) (r : Rel), ReadsWithin c r.owned →
+      (∀ k ∈ ks, ReadsWithin k.e r.owned) →
+      RelEq (filter c (topn n off ks r)) (topn n off ks (filter c r)) := by
   intro h
   have := h wCond (some 1) 0 [] wRel wCond_reads (by simp)
   revert this
@@ -302,33 +311,28 @@ theorem wAnd_reads (c : BExpr) (hc : ReadsWithin c (fun x => wL.owned x || wR.ow
   intro ρ ρ' h
   simp [bAnd, hc ρ ρ' h, bTrue]
 
-/-- `(join ?type (and ?cond1 ?cond2) L R) => (join ?type ?cond2 (filter ?cond1 L) R)` is stated
-for every join type; for an anti join (and for left/full outer joins) it drops left rows that
-the join must keep.  Witness: anti join, `cond1` false on the only left row. -/
-theorem punsound_pushdown_join_condition_left : ¬ pstmt_pushdown_join_condition_left := by
+/-- `(join ?type (and ?cond1 ?cond2) L R) => (join ?type ?cond2 (filter ?cond1 L) R)` was stated
+for every join type until `fix:` 881d3d2 added `join_type_is`; for an anti join (and for left/full
+outer joins) it drops left rows that the join must keep.  Witness: anti join, `cond1` false on
+the only left row.  The guard of the repaired rule is therefore necessary. -/
+theorem pushdown_join_condition_left_needs_type_guard :
+    ¬ ∀ (t : JoinType) (c1 c2 : BExpr) (L R : Rel), (∀ x, L.owned x = true → R.owned x = false) →
+      ReadsWithin (bAnd c1 c2) (fun x => L.owned x || R.owned x) → Indep c1 R.owned →
+      RelEq (join t (bAnd c1 c2) L R) (join t c2 (filter c1 L) R) := by
   intro h
   have := h .anti wC0 bTrue wL wR wL_wR_disjoint (wAnd_reads wC0 wC0_reads) wC0_indep_right
   revert this
   simp [RelEq, Rel.out, join, joinRows, matchesL, filter, holds, wL, wR, wC0, bAnd, bTrue, merge, X.and3]
 
-theorem punsound_pushdown_join_condition_left_1 : ¬ pstmt_pushdown_join_condition_left_1 := by
-  intro h
-  have := h .anti wC0 wL wR wL_wR_disjoint wC0_reads wC0_indep_right
-  revert this
-  simp [RelEq, Rel.out, join, joinRows, matchesL, filter, holds, wL, wR, wC0, bTrue, merge]
-
 /-- Same for the right side and a right outer join. -/
-theorem punsound_pushdown_join_condition_right : ¬ pstmt_pushdown_join_condition_right := by
+theorem pushdown_join_condition_right_needs_type_guard :
+    ¬ ∀ (t : JoinType) (c1 c2 : BExpr) (L R : Rel), (∀ x, L.owned x = true → R.owned x = false) →
+      ReadsWithin (bAnd c1 c2) (fun x => L.owned x || R.owned x) → Indep c1 L.owned →
+      RelEq (join t (bAnd c1 c2) L R) (join t c2 L (filter c1 R)) := by
   intro h
   have := h .rightOuter wC1 bTrue wL wR wL_wR_disjoint (wAnd_reads wC1 wC1_reads) wC1_indep_left
   revert this
   simp [RelEq, Rel.out, join, joinRows, matchesL, filter, holds, wL, wR, wC1, bAnd, bTrue, merge, X.and3]
-
-theorem punsound_pushdown_join_condition_right_1 : ¬ pstmt_pushdown_join_condition_right_1 := by
-  intro h
-  have := h .rightOuter wC1 wL wR wL_wR_disjoint wC1_reads wC1_indep_left
-  revert this
-  simp [RelEq, Rel.out, join, joinRows, matchesL, filter, holds, wL, wR, wC1, bTrue, merge]
 
 theorem matchesL_and_left (c1 c2 : BExpr) (S : Col → Bool) (hi : Indep c1 S) (l : Env) (R : List Env) :
     matchesL (bAnd c1 c2) S l R = if holds c1 l then matchesL c2 S l R else [] := by
@@ -409,6 +413,38 @@ theorem psound_pushdown_join_condition_right_partial (t : JoinType)
   rcases ht with rfl | rfl | rfl | rfl <;>
     simp [RelEq, Rel.out, join, joinRows, filter, hm]
 
+/-- Two joins whose conditions agree as truth values denote the same relation. -/
+theorem join_of_holds_eq (t : JoinType) (on on' : BExpr) (L R : Rel)
+    (h : ∀ ρ, holds on ρ = holds on' ρ) : join t on L R = join t on' L R :=
+  join_congr t on on' L R (fun _ _ _ _ => h _)
+
+theorem holds_bAnd_true (c : BExpr) (ρ : Env) : holds (bAnd c bTrue) ρ = holds c ρ := by
+  unfold holds bAnd bTrue
+  cases h : c ρ with
+  | none => simp [X.and3]
+  | some v => cases v <;> simp [X.and3]
+
+/-- The repaired rules (`fix:` 881d3d2: `if join_type_is("?type", LEFT_PUSHABLE)`). -/
+theorem psound_pushdown_join_condition_left : pstmt_pushdown_join_condition_left := by
+  intro t c1 c2 L R _ _ _ hi ht
+  exact psound_pushdown_join_condition_left_partial t ht c1 c2 L R hi
+
+theorem psound_pushdown_join_condition_left_1 : pstmt_pushdown_join_condition_left_1 := by
+  intro t c1 L R _ _ hi ht
+  have h := psound_pushdown_join_condition_left_partial t ht c1 bTrue L R hi
+  rw [join_of_holds_eq t c1 (bAnd c1 bTrue) L R (fun ρ => (holds_bAnd_true c1 ρ).symm)]
+  exact h
+
+theorem psound_pushdown_join_condition_right : pstmt_pushdown_join_condition_right := by
+  intro t c1 c2 L R hd hw _ hi ht
+  exact psound_pushdown_join_condition_right_partial t ht c1 c2 L R hd hw hi
+
+theorem psound_pushdown_join_condition_right_1 : pstmt_pushdown_join_condition_right_1 := by
+  intro t c1 L R hd hw hi ht
+  have h := psound_pushdown_join_condition_right_partial t ht c1 bTrue L R hd hw hi
+  rw [join_of_holds_eq t c1 (bAnd c1 bTrue) L R (fun ρ => (holds_bAnd_true c1 ρ).symm)]
+  exact h
+
 -- join -> hashjoin: the hash-join executor matches non-NULL keys by `DataValue` equality ----------
 
 /-- SQL `=` is TRUE exactly when the executor's key equality holds. -/
@@ -430,13 +466,9 @@ theorem keysEq_three (l1 l2 l3 r1 r2 r3 : VExpr) (ρ : Env) :
       = (keyEq (l1 ρ) (r1 ρ) && (keyEq (l2 ρ) (r2 ρ) && keyEq (l3 ρ) (r3 ρ))) := by
   simp [keysEq, bTrue]
 
-/-- Two joins whose conditions agree as truth values denote the same relation. -/
-theorem join_of_holds_eq (t : JoinType) (on on' : BExpr) (L R : Rel)
-    (h : ∀ ρ, holds on ρ = holds on' ρ) : join t on L R = join t on' L R :=
-  join_congr t on on' L R (fun _ _ _ _ => h _)
-
 theorem psound_hash_join_on_one_eq : pstmt_hash_join_on_one_eq := by
-  intro t l1 r1 L R _ _ _ _
+  intro t l1 r1 L R
+  intros
   unfold hashjoin RelEq
   rw [join_of_holds_eq t (bEq l1 r1) _ L R]
   intro ρ
@@ -444,7 +476,8 @@ theorem psound_hash_join_on_one_eq : pstmt_hash_join_on_one_eq := by
   simp [holds, keysEq_one, bTrue]
 
 theorem psound_hash_join_on_two_eq : pstmt_hash_join_on_two_eq := by
-  intro t l1 r1 l2 r2 L R _ _ _ _ _ _
+  intro t l1 r1 l2 r2 L R
+  intros
   unfold hashjoin RelEq
   rw [join_of_holds_eq t (bAnd (bEq l1 r1) (bEq l2 r2)) _ L R]
   intro ρ
@@ -452,7 +485,8 @@ theorem psound_hash_join_on_two_eq : pstmt_hash_join_on_two_eq := by
   simp [holds, keysEq_two, bTrue]
 
 theorem psound_hash_join_on_three_eq : pstmt_hash_join_on_three_eq := by
-  intro t l1 r1 l2 r2 l3 r3 L R _ _ _ _ _ _ _ _
+  intro t l1 r1 l2 r2 l3 r3 L R
+  intros
   unfold hashjoin RelEq
   rw [join_of_holds_eq t (bAnd (bEq l1 r1) (bAnd (bEq l2 r2) (bEq l3 r3))) _ L R]
   intro ρ
@@ -461,21 +495,25 @@ theorem psound_hash_join_on_three_eq : pstmt_hash_join_on_three_eq := by
 
 /-- `(join inner (and (= l r) cond) L R) => (filter cond (hashjoin inner true [l] [r] L R))` -/
 theorem psound_hash_join_on_one_eq_1 : pstmt_hash_join_on_one_eq_1 := by
-  intro l1 r1 c L R _ _ _ _
+  intro l1 r1 c L R
+  intros
   unfold hashjoin
   simp only [RelEq, Rel.out, filter, join, joinRows, matchesL]
   congr 1
   rw [List.filter_flatMap]
   apply flatMap_congr'
-  intro l _
+  intro l
+  intros
   rw [List.filter_filter]
   apply List.filter_congr
-  intro ρ _
+  intro ρ
+  intros
   rw [holds_bAnd, holds_bEq]
   simp [holds, keysEq_one, bTrue, Bool.and_comm]
 
 theorem psound_hash_join_on_one_eq_2 : pstmt_hash_join_on_one_eq_2 := by
-  intro l1 r1 c L R _ _ _ _
+  intro l1 r1 c L R
+  intros
   unfold hashjoin RelEq
   rw [join_of_holds_eq .semi (bAnd (bEq l1 r1) c) _ L R]
   intro ρ
@@ -483,7 +521,8 @@ theorem psound_hash_join_on_one_eq_2 : pstmt_hash_join_on_one_eq_2 := by
   simp [holds, keysEq_one]
 
 theorem psound_hash_join_on_one_eq_3 : pstmt_hash_join_on_one_eq_3 := by
-  intro l1 r1 c L R _ _ _ _
+  intro l1 r1 c L R
+  intros
   unfold hashjoin RelEq
   rw [join_of_holds_eq .anti (bAnd (bEq l1 r1) c) _ L R]
   intro ρ
@@ -491,7 +530,8 @@ theorem psound_hash_join_on_one_eq_3 : pstmt_hash_join_on_one_eq_3 := by
   simp [holds, keysEq_one]
 
 theorem psound_hash_join_on_one_eq_rev : pstmt_hash_join_on_one_eq_rev := by
-  intro t c l1 r1 L R _ _ _ _
+  intro t c l1 r1 L R
+  intros
   unfold hashjoin RelEq
   rw [join_of_holds_eq t _ (bAnd c (bEq l1 r1)) L R]
   intro ρ
@@ -499,7 +539,8 @@ theorem psound_hash_join_on_one_eq_rev : pstmt_hash_join_on_one_eq_rev := by
   simp [holds, keysEq_one, Bool.and_comm]
 
 theorem psound_hash_join_on_two_eq_rev : pstmt_hash_join_on_two_eq_rev := by
-  intro t c l1 l2 r1 r2 L R _ _ _ _
+  intro t c l1 l2 r1 r2 L R
+  intros
   unfold hashjoin RelEq
   rw [join_of_holds_eq t _ (bAnd c (bAnd (bEq l1 r1) (bEq l2 r2))) L R]
   intro ρ
@@ -507,7 +548,8 @@ theorem psound_hash_join_on_two_eq_rev : pstmt_hash_join_on_two_eq_rev := by
   simp [holds, keysEq_two, Bool.and_comm]
 
 theorem psound_hash_join_on_three_eq_rev : pstmt_hash_join_on_three_eq_rev := by
-  intro t c l1 l2 l3 r1 r2 r3 L R _ _ _ _
+  intro t c l1 l2 l3 r1 r2 r3 L R
+  intros
   unfold hashjoin RelEq
   rw [join_of_holds_eq t _ (bAnd c (bAnd (bEq l1 r1) (bAnd (bEq l2 r2) (bEq l3 r3)))) L R]
   intro ρ
